@@ -134,6 +134,36 @@ func (m recMeter) Int64UpDownCounter(name string, _ ...metric.Int64UpDownCounter
 	return noop.Int64UpDownCounter{}, nil
 }
 
+// meter provider recording the consumer's two counters (arrow_batch_records, arrow_schema_resets)
+type cntRec struct {
+	noop.Int64Counter
+	n int64
+}
+
+func (r *cntRec) Add(_ context.Context, d int64, _ ...metric.AddOption) { r.n += d }
+
+type cntMeter struct {
+	noop.Meter
+	records, resets *cntRec
+}
+
+func (m cntMeter) Int64Counter(name string, _ ...metric.Int64CounterOption) (metric.Int64Counter, error) {
+	switch name {
+	case "arrow_batch_records":
+		return m.records, nil
+	case "arrow_schema_resets":
+		return m.resets, nil
+	}
+	return noop.Int64Counter{}, nil
+}
+
+type cntProvider struct {
+	noop.MeterProvider
+	m cntMeter
+}
+
+func (p cntProvider) Meter(string, ...metric.MeterOption) metric.Meter { return p.m }
+
 type recProvider struct {
 	noop.MeterProvider
 	r *inuseRec
@@ -578,7 +608,16 @@ func RunStreamCapture(em *Emitter, tr int, st *Stream, capt *Capture) {
 		return
 	}
 	em.EmitStream(tr, "Begin", map[string]any{"x": st.ID, "sig": st.Signal})
-	c := arrow_record.NewConsumer(SharedConsumerOptions...)
+	// every second stream (and never when the option slice is shared on purpose) the consumer's own counters are
+	// recorded: StreamTrace.tla states what they must be
+	var cnt *cntMeter
+	copts := SharedConsumerOptions
+	if SharedConsumerOptions == nil && tr%2 == 1 {
+		cnt = &cntMeter{records: &cntRec{}, resets: &cntRec{}}
+		copts = []arrow_record.Option{arrow_record.WithMeterProvider(cntProvider{m: *cnt})}
+	}
+	c := arrow_record.NewConsumer(copts...)
+	var cntSeen [2]int64
 	wire := NewWire()
 	healthy := true
 	inputs := []any{}
@@ -903,6 +942,9 @@ func RunStreamCapture(em *Emitter, tr int, st *Stream, capt *Capture) {
 		for _, q := range toDecode.ArrowPayloads {
 			delivered[q.SchemaId] = true
 		}
+		if cnt != nil {
+			cntSeen = [2]int64{cnt.records.n, cnt.resets.n}
+		}
 		out, n, doc, dmsg, _ := decode(c, sig, toDecode)
 		if capt != nil {
 			capt.Oc = append(capt.Oc, doc)
@@ -941,6 +983,9 @@ func RunStreamCapture(em *Emitter, tr int, st *Stream, capt *Capture) {
 			sev := map[string]any{"k": k, "sig": sig, "oc": doc, "n": n, "fp": fp, "x": strings.Join(toStrings(faults), " ")}
 			if doc != "panic" {
 				sev["cs"] = consumerProjection(c)
+			}
+			if cnt != nil {
+				sev["st"] = []any{cnt.records.n - cntSeen[0], cnt.resets.n - cntSeen[1]}
 			}
 			em.EmitStream(tr, "Decode", sev)
 		}
